@@ -5,6 +5,7 @@ R18.1  slot discovery is exhaustive: every class with an identifier-typed field,
 R18.2  the template is never consumed: no mutating call has `repl` as receiver (in subn or in the path functions); each
        substitution works on `repl_ = repl.copy()` created in the same iteration before any use of `repl_`.
 R18.3  counts: exactly one `total_count += 1` per performed `matched.replace(repl_, ...)` on every path.
+R18.5  the index recorded for a template slot inside a list field enumerates that field itself (unfiltered) or is the node's link index.
 R18.4  a per-location budget (`loop`) consumed while one location is rewritten is restored on every path that leaves the location.
 Not decided: structural equality with a reference transformer; the remaining nested / count / loop semantics.
 """
@@ -55,9 +56,10 @@ def run(ctx):
                       f'{v.qualname} is registered for {c.name} but never looks at its identifier field(s) {sorted(need)}',
                       fn.lineno)
     sub = ctx.repo.funcs('match', 'subn')[0]
-    txt = norm(ast.unparse(sub.node), 300000)
-    ctx.check('R18.1', 'repl.walk(_SUB_REPL_PATH_FUNCS)' in txt and '_SUB_REPL_PATH_FUNCS.get(f.a.__class__, _sub_repl_path_INVALID)(paths, str_tags, repl, f)' in txt,
-              'match', 'subn', 'walk filter and dispatch use _SUB_REPL_PATH_FUNCS',
+    walks = any(isinstance(x, ast.Call) and call_name(x) == 'walk' and x.args and norm(x.args[0]) == '_SUB_REPL_PATH_FUNCS' for x in ast.walk(sub.node))
+    dispatch = any(isinstance(x, ast.Call) and isinstance(x.func, ast.Call) and isinstance(x.func.func, ast.Attribute) and x.func.func.attr == 'get' and
+                   norm(x.func.func.value) == '_SUB_REPL_PATH_FUNCS' for x in ast.walk(sub.node))
+    ctx.check('R18.1', walks and dispatch, 'match', 'subn', 'walk filter and dispatch use _SUB_REPL_PATH_FUNCS',
               'subn() must walk the template with the slot table as type filter and dispatch through the same table', sub.lineno)
 
     # ---- R18.2 -------------------------------------------------------------------------------------------------------
@@ -127,6 +129,7 @@ def run(ctx):
 
 # ---- R18.4 -----------------------------------------------------------------------------------------------------------
     check_budget(ctx)
+    check_slot_indices(ctx)
 
 
 def check_budget(ctx):
@@ -218,3 +221,52 @@ def check_budget(ctx):
                           sample={'function': fi.key, 'budget': v, 'saved': vs, 'resets': len(resets)})
         if n_inst < 1:
             raise AnalysisError('subn: no consumption of a saved budget found')
+
+
+# ---- R18.5 -----------------------------------------------------------------------------------------------------------
+
+def check_slot_indices(ctx):
+    """A template slot inside a list field is recorded as ('<field>', idx); idx must be the element's index in that field: bound by
+    `for idx, _ in enumerate(<node>.<field>)` over the *unfiltered* field, or taken from the node's own link (`field, idx = f.pfield`)."""
+    from ..struct import parent_map
+    from ..model import walk_no_nested
+    ctx.rule('R18.5', 'the index recorded for a template slot in a list field enumerates that field itself', 3)
+    n = 0
+    for fi in ctx.repo.all_funcs():
+        if fi.module != 'match' or not fi.name.startswith('_sub_repl_path') or isinstance(fi.node, ast.Lambda):
+            continue
+        par = parent_map(fi.node)
+        for t in ast.walk(fi.node):
+            if not (isinstance(t, ast.Tuple) and len(t.elts) == 2 and isinstance(t.elts[0], ast.Constant) and isinstance(t.elts[0].value, str)
+                    and isinstance(t.elts[1], ast.Name)):
+                continue
+            field, idx = t.elts[0].value, t.elts[1].id
+            n += 1
+            ok, how = False, 'index variable has no recognised binding'
+            cur = t
+            while cur in par:
+                cur = par[cur]
+                if isinstance(cur, (ast.For, ast.comprehension)) or isinstance(cur, (ast.GeneratorExp, ast.ListComp)):
+                    gens = cur.generators if isinstance(cur, (ast.GeneratorExp, ast.ListComp)) else [cur]
+                    for g in gens:
+                        tg, it = g.target, g.iter
+                        if isinstance(tg, ast.Tuple) and tg.elts and isinstance(tg.elts[0], ast.Name) and tg.elts[0].id == idx and \
+                                isinstance(it, ast.Call) and call_name(it) == 'enumerate' and it.args:
+                            src = it.args[0]
+                            if isinstance(src, ast.Attribute) and src.attr == field:
+                                ok, how = True, f'enumerate({norm(src)})'
+                            else:
+                                how = f'`{idx}` counts the elements of `{norm(src, 50)}`, not of the field `{field}`'
+                if cur is fi.node:
+                    break
+            if not ok:
+                for x in walk_no_nested(fi.node):
+                    if isinstance(x, ast.Assign) and isinstance(x.targets[0], ast.Tuple) and len(x.targets[0].elts) == 2 and \
+                            isinstance(x.targets[0].elts[1], ast.Name) and x.targets[0].elts[1].id == idx and \
+                            isinstance(x.value, ast.Attribute) and x.value.attr == 'pfield':
+                        ok, how = True, 'index of the node link (.pfield)'
+            ctx.check('R18.5', ok, fi.module, fi.qualname, f"('{field}', {idx})", f'{how}: the substituted value is put at a different element than the '
+                      f'one that carries the placeholder (the placeholder stays in the output, a fixed element is overwritten)', t.lineno,
+                      sample={'function': fi.key, 'slot': f"('{field}', {idx})", 'binding': how})
+    if n < 3:
+        raise AnalysisError(f'only {n} indexed template slots found')
